@@ -134,6 +134,15 @@ RecordFails(r) ==
                 ELSE Bad(((off >= 0) = (on >= 0)) /\ (off >= 0 => (off <= on /\ on <= off + MaxPrefixBonus)),
                          "C04", "prefer_prefix_bounds", k + half) : k \in 1..half })
   \cup
+  \* every view formed into the scratch allocation lies inside it, views do not overlap and are aligned
+  (IF ~W10 THEN {}
+   ELSE UNION { LET v == r.slab[k].views  al == <<r.slab[k].csz, 1, 2, 8, 1>> IN
+                Bad(\A j \in 1..5 : v[j][1] + v[j][2] <= r.slab[k].size, "C10", "slab_view_out_of_bounds", k)
+                \cup Bad(\A j \in 1..4 : v[j][1] + v[j][2] <= v[j+1][1], "C10", "slab_views_overlap", k)
+                \cup Bad(\A j \in 1..5 : v[j][1] % al[j] = 0, "C10", "slab_view_misaligned", k)
+                \cup Bad(r.slab[k].size = SlabSize /\ \A j \in 1..5 : <<v[j][1], v[j][2]>> = <<Views(r.slab[k].h, r.slab[k].n, r.slab[k].csz)[j][1], Views(r.slab[k].h, r.slab[k].n, r.slab[k].csz)[j][2]>>,
+                          "DRIFT", "slab_layout_differs_from_model", k) : k \in 1..Len(r.slab) })
+  \cup
   \* history independence: a used matcher answers like a fresh one
   (IF ~W10 THEN {}
    ELSE { <<"C10", "history_dependent", r.hist[h].b>> : h \in 1..Len(r.hist) })
